@@ -183,6 +183,20 @@ def write_coqproject():
     return write_if_changed(os.path.join(COQ, "_CoqProject"), content)
 
 
+def regenerate_formulas():
+    """re-run tools/py2coq.py on /repo's current sources: coq/gen/Formulas_gen.v (one Gallina definition per whitelisted
+    formula function; a function that no longer translates is left out, so every tie lemma about it stops compiling).
+    Returns {coq name: error} for the functions that did not translate."""
+    import importlib
+    import py2coq
+    import formulas_table
+    importlib.reload(formulas_table)
+    with Lock("coq"):
+        txt, errs = py2coq.translate_all(REPO, formulas_table.TABLE)
+        write_if_changed(os.path.join(COQ, "gen", "Formulas_gen.v"), txt)
+    return errs
+
+
 def coq_make(targets, timeout=1500, jobs=16, remove_first=()):
     """make the given .vo targets (paths relative to coq/).  Returns (ok, output).
     remove_first: files (relative to coq/) deleted under the build lock before make (forces recompilation)."""
@@ -499,6 +513,11 @@ class Ctx:
     # -- proof stage
     def proofs(self, prop_file):
         log("[%s] proof obligations: coq/%s" % (self.pid, prop_file))
+        try:
+            ferr = regenerate_formulas()
+            self.tie["Formulas_gen.v"] = "formula functions translated by py2coq on this run; not translatable: %s" % (sorted(ferr) or "none")
+        except Exception as e:  # fail closed: ties that need the file will not compile
+            self.tie["Formulas_gen.v"] = "py2coq FAILED: %r" % (e,)
         bad = forbidden_scan()
         r = check_props(prop_file)
         self.checker_cmd = "make -C coq %s.vo (coqc 8.16.1, full .vo build) + Print Assumptions per theorem" % prop_file[:-2]
